@@ -8,6 +8,12 @@ macro_rules! ct_q { ($($n:ident: $t:ty, $l:literal, $u:literal;)*) => { paste::p
 macro_rules! ct_t { ($($n:ident: $t:ty, $l:literal, $u:literal;)*) => { paste::paste! { $(
 	#[kani::proof] #[kani::unwind($u)] pub fn [<c19t_cnt_ $n>]() { h_counted::<$t, $l>() } )* } } }
 crate::fixed_types_q!(ct_q);
+macro_rules! cu_q { ($($n:ident: $t:ty, $l:literal, $u:literal;)*) => { paste::paste! { $(
+	#[kani::proof] #[kani::unwind($u)] pub fn [<c19q_unkskip_ $n>]() { h_counted_unk_skip::<$t, $l>() } )* } } }
+macro_rules! cu_t { ($($n:ident: $t:ty, $l:literal, $u:literal;)*) => { paste::paste! { $(
+	#[kani::proof] #[kani::unwind($u)] pub fn [<c19t_unkskip_ $n>]() { h_counted_unk_skip::<$t, $l>() } )* } } }
+crate::fixed_types_q!(cu_q);
+crate::fixed_types_t!(cu_t);
 crate::fixed_types_t!(ct_t);
 crate::fixed_types_wide!(ct_t);
 macro_rules! ctc_q { ($($n:ident: $t:ty, $c:expr, $l:literal, $nn:literal, $s:literal, $u:literal;)*) => { paste::paste! { $(
